@@ -590,10 +590,18 @@ def seedLabels (centers : List Nat) : List Nat :=
   (List.range centers.length).filter fun t => !((centers.drop (t + 1)).contains (centers.getD t 0))
 
 /-- `RankClassifier.fit(...).labels_` from the matrix of scores (one row per node, one column per class):
-    `labels_unique[np.argmax(scores, axis=1)]`; fewer than two classes are refused by `check_labels` -/
+    `labels_unique[np.argmax(scores, axis=1)]`; fewer than two classes are refused by `check_labels` (ValueError);
+    an arg-max beyond the classes (a score row wider than `labels_unique`) is numpy's IndexError -/
 def rankReadout (centers : List Nat) (scores : List (List Rat)) : Except PyErr (List Nat) :=
   if (seedLabels centers).length < 2 then .error .valueError
+  else if scores.any (fun row => decide ((seedLabels centers).length ≤ argmaxFirst row)) then .error .indexError
   else .ok (scores.map fun row => (seedLabels centers).getD (argmaxFirst row) 0)
+
+/-- the error of a read-out, if any -/
+def readoutError (centers : List Nat) (scores : List (List Rat)) : Option PyErr :=
+  match rankReadout centers scores with
+  | .error e => some e
+  | .ok _ => none
 
 /-- the labels of one assignment, `[]` standing for the refusal (handled by `kcentersFitScores`) -/
 def classifyOf (scores : Nat → List Nat → List (List Rat)) (i : Nat) (centers : List Nat) : List Nat :=
@@ -609,9 +617,12 @@ def kcentersFitScores (nClusters nInit maxIter : Int) (bipartite : Bool) (nRow n
   match kcentersChecks nClusters nInit bipartite nRow nCol pos with
   | .error e => .error e
   | .ok mask =>
-    if decide (1 ≤ maxIter) && (List.range nInit.toNat).any (fun i =>
-        decide ((seedLabels (initCenters (chooseOf i) mask nClusters.toNat)).length < 2)) then .error .valueError
-    else kcentersFitFull nClusters nInit maxIter bipartite nRow nCol pos chooseOf (classifyOf scores) idxMax
+    -- the first restart whose assignment raises ends the fit with that error (the loop body runs iff max_iter ≥ 1)
+    match (if 1 ≤ maxIter then (List.range nInit.toNat).findSome? (fun i =>
+        readoutError (initCenters (chooseOf i) mask nClusters.toNat)
+          (scores i (initCenters (chooseOf i) mask nClusters.toNat))) else none) with
+    | some e => .error e
+    | none => kcentersFitFull nClusters nInit maxIter bipartite nRow nCol pos chooseOf (classifyOf scores) idxMax
 
 /-- `KCenters.fit(input_matrix, force_bipartite)` from the shape of the input: `directed=True` symmetrises the input
     first (`input_matrix + input_matrix.T`: a ValueError unless square), then `get_adjacency` routes it. -/
